@@ -197,7 +197,7 @@ func main() {
 	}
 
 	var wg sync.WaitGroup
-	sem := make(chan struct{}, run.Pick(8, 8))
+	sem := make(chan struct{}, run.Pick(8, 12))
 	for _, b := range batches {
 		wg.Add(1)
 		sem <- struct{}{}
@@ -257,7 +257,7 @@ func plan(run *vk.Run) []batchArgs {
 	var safe, random []job
 	n := 0
 	next := func() int { n++; return n }
-	rounds := run.Pick(1, 6)
+	rounds := run.Pick(1, 10)
 	for round := 0; round < rounds; round++ {
 		for _, k := range kinds {
 			for _, ps := range permSets() {
@@ -268,22 +268,22 @@ func plan(run *vk.Run) []batchArgs {
 			}
 		}
 	}
-	for i := 0; i < run.Pick(8, 120); i++ {
+	for i := 0; i < run.Pick(24, 1000); i++ {
 		safe = append(safe, job{T: "deleg", I: next()})
 	}
-	for i := 0; i < run.Pick(6, 80); i++ {
+	for i := 0; i < run.Pick(16, 600); i++ {
 		safe = append(safe, job{T: "xgroup", I: next()})
 	}
-	for i := 0; i < run.Pick(9, 150); i++ {
+	for i := 0; i < run.Pick(30, 1500); i++ {
 		safe = append(safe, job{T: "revoke", I: next()})
 	}
-	for i := 0; i < run.Pick(6, 120); i++ {
+	for i := 0; i < run.Pick(24, 1500); i++ {
 		safe = append(safe, job{T: "race", I: next()})
 	}
-	for i := 0; i < run.Pick(6, 100); i++ {
+	for i := 0; i < run.Pick(16, 600); i++ {
 		safe = append(safe, job{T: "whip", I: next()})
 	}
-	for i := 0; i < run.Pick(60, 2400); i++ {
+	for i := 0; i < run.Pick(400, 30000); i++ {
 		random = append(random, job{T: "random", I: next(), Len: 15})
 	}
 
@@ -314,6 +314,6 @@ func plan(run *vk.Run) []batchArgs {
 		}
 	}
 	cut("matrix", safe, run.Pick(110, 260), 16)
-	cut("random", random, run.Pick(15, 60), 12)
+	cut("random", random, run.Pick(50, 100), 12)
 	return out
 }
